@@ -647,7 +647,7 @@ def lattice_vectors(n, tier, seed, tau_from=0):
     if tier == "quick":
         pairs = [(i, j) for i, j in pairs if j - i <= 2][:10]
     else:
-        pairs = pairs[:100]
+        pairs = pairs[:30]
     for i, j in pairs:
         for x, y in rel:
             v = list(base)
